@@ -30,8 +30,11 @@ import shutil
 import hostlib as H
 import vlib
 
-THEOREMS = ["C12_buffers_win"]
+THEOREMS = ["C12_buffers_win", "C12_model_is_source"]
 TRUSTED = [
+    "tools/translate/t_filesystem.py (parser + operation table: renders the CURRENT file_system.rs / analysis.rs / vfs.rs into coq/gen/GenFileSystem.v) "
+    "and the contracts of coq/model/FsOps.v (HashMap / Vec / VecDeque / loops / salsa inputs / env / disk / trait FileSystem); "
+    "list_includes is tied by shape only (its meaning over the item abstraction is FsOps.ast_list_includes)",
     "Coq 8.16.1 kernel (vm_compute only inside the Example)",
     "the disk is static during a session (files are not modified behind the server's back) and every read of an existing file succeeds",
     "abstraction of the parse: a text is represented by its Include/Class descendants in document order (computed by the harness from the real parse tree)",
@@ -263,7 +266,7 @@ def builds(fails):
 
 
 def run(ctx):
-    fails = vlib.proof_step(ctx, "TG.Props.C12", THEOREMS, ["props/C12.vo"], TRUSTED, translators=[])
+    fails = vlib.proof_step(ctx, "TG.Props.C12", THEOREMS, ["props/C12.vo"], TRUSTED, translators=["t_filesystem"])
     bindir, vfs_ok, lsp_bindir = builds(fails)
     exe = vlib.build_model("host")
     H.calibrate(bindir)
